@@ -82,7 +82,9 @@ func checkEnvStreams(p *Prog, r *Report) {
 	for h := range used {
 		holders = append(holders, h)
 	}
-	sort.Slice(holders, func(i, j int) bool { return holders[i].Pkg().Path()+holders[i].Name() < holders[j].Pkg().Path()+holders[j].Name() })
+	sort.Slice(holders, func(i, j int) bool {
+		return holders[i].Pkg().Path()+holders[i].Name() < holders[j].Pkg().Path()+holders[j].Name()
+	})
 	for _, h := range holders {
 		var need []string
 		for s := range used[h] {
